@@ -12,6 +12,7 @@ import (
 	"strings"
 	"sync"
 
+	soy "github.com/robfig/soy"
 	"github.com/robfig/soy/ast"
 	"github.com/robfig/soy/data"
 	"github.com/robfig/soy/soymsg"
@@ -49,8 +50,13 @@ func translationsDet(reg *template.Registry, kind int) *jsMemBundle {
 type detObs map[string]string // label -> value
 
 func detObserve(fs []srcFile, globals data.Map, dataByTmpl map[string]string, kind int) detObs {
+	return detObserveWith(func() (*template.Registry, error) { return jsCompile(fs, globals) }, dataByTmpl, kind)
+}
+
+// detObserveWith observes what `compile` yields (a fresh Bundle, or one Bundle value compiled once more).
+func detObserveWith(compile func() (*template.Registry, error), dataByTmpl map[string]string, kind int) detObs {
 	obs := detObs{}
-	reg, err := jsCompile(fs, globals)
+	reg, err := compile()
 	if err != nil {
 		obs["accept"] = "ERR " + err.Error()
 		return obs
@@ -217,7 +223,21 @@ func detCheck(fs []srcFile, globals data.Map, dataByTmpl map[string]string, kind
 	if strings.HasPrefix(first["accept"], "ERR") {
 		reps = 40 // a rejected bundle is observed by its error text only (cheap): more chances for a map order or a schedule to show
 	}
+	// every other repetition compiles ONE Bundle value again instead of building a fresh one: the result is a
+	// function of the sources and globals, not of what the Bundle has been asked before
+	shared := soy.NewBundle()
+	for _, f := range fs {
+		shared.AddTemplateString(f.name, f.content)
+	}
+	if len(globals) > 0 {
+		shared.AddGlobalsMap(globals)
+	}
+	shared.Compile()
 	for rep := 2; rep <= reps; rep++ {
+		if rep%2 == 1 {
+			report("recompilation of one Bundle value", detObserveWith(func() (*template.Registry, error) { return shared.Compile() }, dataByTmpl, kind))
+			continue
+		}
 		report("repetition", detObserve(fs, globals, dataByTmpl, kind))
 	}
 	if len(fs) >= 2 && len(fs) <= 4 {
